@@ -9,23 +9,22 @@ import (
 // VTok is a vocabulary token (type + text).
 type VTok struct{ Type, Value string }
 
-// Vocab is the alphabet of generated inputs (all lexable by LexDef).
-var Vocab = []VTok{
-	{"Ident", "a"}, {"Ident", "b"}, {"Ident", "ab"}, {"Ident", "A"},
-	{"Int", "1"}, {"Int", "2"}, {"Int", "12"},
-	{"Punct", "+"}, {"Punct", "-"}, {"Punct", ";"}, {"Punct", "("}, {"Punct", ")"},
-}
-
-var ordinaryTypes = []string{"Ident", "Int", "Punct"}
-
-func vocabOf(typ string) []VTok {
-	var c []VTok
-	for _, v := range Vocab {
-		if v.Type == typ {
-			c = append(c, v)
+// numLike: the expression only matches texts made of an optional sign and Int tokens.
+func numLike(e *Expr) bool {
+	switch e.Kind {
+	case KRef:
+		return e.T == "Int"
+	case KLit:
+		return (e.S != "" && e.S[0] >= '0' && e.S[0] <= '9') || e.S == "-" || e.S == "+"
+	case KSeq, KAlt, KGroup:
+		for _, k := range e.Kids {
+			if !numLike(k) {
+				return false
+			}
 		}
+		return true
 	}
-	return c
+	return false
 }
 
 // GenOpts steers the grammar generator.
@@ -37,6 +36,7 @@ type GenOpts struct {
 	NameElided  bool // allow the grammar to name elided token types explicitly
 	PosStyles   bool // vary Pos/EndPos/Tokens styles (else always plain)
 	MixedUnion  bool // allow pointer and value members in one union
+	Profiles    bool // also use the default text/scanner lexer profile
 }
 
 type genCtx struct {
@@ -68,17 +68,23 @@ func (c *genCtx) leaf() *Expr {
 	var e *Expr
 	switch c.draw(0, 5, "leaf") {
 	case 0, 1, 2:
-		v := rapid.SampledFrom(Vocab).Draw(c.t, "lit")
+		v := rapid.SampledFrom(c.g.Prof().Vocab).Draw(c.t, "lit")
 		e = Lit(v.Value)
 	case 3:
-		v := rapid.SampledFrom(Vocab).Draw(c.t, "tlit")
+		v := rapid.SampledFrom(c.g.Prof().Vocab).Draw(c.t, "tlit")
 		ty := v.Type
-		if c.draw(0, 3, "tlitmismatch") == 0 {
-			ty = rapid.SampledFrom(ordinaryTypes).Draw(c.t, "ty")
+		named := false
+		for _, rt := range c.g.Prof().RefTypes {
+			if rt == ty {
+				named = true
+			}
+		}
+		if !named || c.draw(0, 3, "tlitmismatch") == 0 {
+			ty = rapid.SampledFrom(c.g.Prof().RefTypes).Draw(c.t, "ty")
 		}
 		e = TLit(v.Value, ty)
 	default:
-		e = Ref(rapid.SampledFrom(ordinaryTypes).Draw(c.t, "ref"))
+		e = Ref(rapid.SampledFrom(c.g.Prof().RefTypes).Draw(c.t, "ref"))
 	}
 	e.Style = c.draw(0, 5, "style")
 	return e
@@ -192,7 +198,7 @@ func (c *genCtx) gen(depth int, nn, incap bool) *Expr {
 			return e
 		}
 	}
-	switch c.draw(0, 12, "node") {
+	switch c.draw(0, 13, "node") {
 	case 0, 1:
 		n := c.draw(2, 4, "seqn")
 		kids := make([]*Expr, n)
@@ -260,6 +266,21 @@ func (c *genCtx) gen(depth int, nn, incap bool) *Expr {
 			kids[i].Style = c.draw(0, 5, "gstyle")
 		}
 		return Group("!", Seq(kids...))
+	case 12:
+		// numeric capture shapes: @Int, @("-"? Int), @(Int+)
+		if incap {
+			return c.leaf()
+		}
+		switch c.draw(0, 3, "numshape") {
+		case 0:
+			return Cap(Seq(Group("?", Lit("-")), Ref("Int")))
+		case 1:
+			return Cap(Group("+", Ref("Int")))
+		case 2:
+			return Group("+", Cap(Ref("Int")))
+		default:
+			return Cap(Ref("Int"))
+		}
 	case 11:
 		// reference to a union, guarded by a consumed token so that recursion through the union is not left recursion
 		if incap || c.nu <= 1 {
@@ -267,7 +288,7 @@ func (c *genCtx) gen(depth int, nn, incap bool) *Expr {
 		}
 		u := c.draw(1, c.nu-1, "uni")
 		guard := c.leaf()
-		if guard.Kind == KRef && c.g.IsElided(guard.T) || guard.T == "WS" {
+		if guard.Kind == KRef && c.g.IsElided(guard.T) || guard.T == "WS" || guard.T == "Comment" {
 			guard = Lit("(")
 		}
 		if rapid.Bool().Draw(c.t, "capguard") {
@@ -312,9 +333,10 @@ func flatLeaves(e *Expr, out *[]*Expr) {
 	}
 }
 
-func otherLiteral(t *rapid.T, e *Expr) *Expr {
+func (c *genCtx) otherLiteral(e *Expr) *Expr {
+	t := c.t
 	for tries := 0; ; tries++ {
-		v := rapid.SampledFrom(Vocab).Draw(t, "failLit")
+		v := rapid.SampledFrom(c.g.Prof().Vocab).Draw(t, "failLit")
 		if e.Kind == KLit && strings.EqualFold(v.Value, e.S) {
 			continue
 		}
@@ -375,7 +397,7 @@ func (c *genCtx) perturb(base *Expr) *Expr {
 	j := c.draw(1, len(cp.Kids), "failat")
 	if j == len(cp.Kids) {
 		// everything matches, then an extra token is demanded
-		cp.Kids = append(cp.Kids, otherLiteral(c.t, Lit("\x00")))
+		cp.Kids = append(cp.Kids, c.otherLiteral(Lit("\x00")))
 		return cp
 	}
 	k := cp.Kids[j]
@@ -388,7 +410,7 @@ func (c *genCtx) perturb(base *Expr) *Expr {
 		flatLeaves(np.Expr, &leaves)
 		if len(leaves) >= 2 {
 			l := leaves[len(leaves)-1]
-			*l = *otherLiteral(c.t, l)
+			*l = *c.otherLiteral(l)
 			c.g.Prods = append(c.g.Prods, np)
 			c.nullP = append(c.nullP, c.nullable(np.Expr))
 			cp.Kids[j] = SubP(len(c.g.Prods) - 1)
@@ -399,11 +421,11 @@ func (c *genCtx) perturb(base *Expr) *Expr {
 		var leaves []*Expr
 		flatLeaves(k, &leaves)
 		if len(leaves) == 0 {
-			cp.Kids = append(cp.Kids[:j+1:j+1], append([]*Expr{otherLiteral(c.t, Lit("\x00"))}, cp.Kids[j+1:]...)...)
+			cp.Kids = append(cp.Kids[:j+1:j+1], append([]*Expr{c.otherLiteral(Lit("\x00"))}, cp.Kids[j+1:]...)...)
 			return cp
 		}
 		l := leaves[len(leaves)-1]
-		*l = *otherLiteral(c.t, l)
+		*l = *c.otherLiteral(l)
 	}
 	return cp
 }
@@ -428,7 +450,7 @@ func (c *genCtx) trap(depth int, nn bool) *Expr {
 		return Seq(g, base)
 	case 3:
 		// three alternatives: the failing one in the middle
-		return Alt(Seq(otherLiteral(c.t, Lit("\x00")), Lit(";")), bad, base)
+		return Alt(Seq(c.otherLiteral(Lit("\x00")), Lit(";")), bad, base)
 	case 4:
 		return Seq(Look(true, clone(base)), base) // positive lookahead that matches: its captures are discarded
 	case 5:
@@ -462,6 +484,11 @@ func assignFields(t *rapid.T, p *Prod, e *Expr) {
 		switch e.Kind {
 		case KCap:
 			kinds := []FKind{FStr, FStr, FStrs, FStrs, FBool, FPStr, FTok, FToks, FNStr, FNBool, FPBool}
+			if numLike(e.Kids[0]) {
+				kinds = []FKind{FInt, FInt, FInts, FInts, FInt8, FStr, FStrs, FToks}
+			} else if rapid.IntRange(0, 19).Draw(t, "numAnyway") == 0 {
+				kinds = []FKind{FInt, FInts} // conversion error path
+			}
 			k := rapid.SampledFrom(kinds).Draw(t, "fk")
 			n := len(p.Fields)
 			if n > 0 && p.Fields[n-1].Kind == k && rapid.Bool().Draw(t, "reuse") {
@@ -517,10 +544,12 @@ func GenGrammar(t *rapid.T, o GenOpts) *Grammar {
 	if rapid.Bool().Draw(t, "ci") {
 		g.CI = []string{"Ident"}
 	}
-	g.Elide = []string{"WS"}
-	if rapid.Bool().Draw(t, "elideComment") {
-		g.Elide = append(g.Elide, "Comment")
+	if o.Profiles && rapid.IntRange(0, 3).Draw(t, "profile") == 0 {
+		g.Profile = "scanner"
+		o.NameElided = false
 	}
+	es := g.Prof().ElideSets
+	g.Elide = es[rapid.IntRange(0, len(es)-1).Draw(t, "elideset")]
 	nu := rapid.IntRange(1, 4).Draw(t, "nunions")
 	c := &genCtx{t: t, g: g, o: o, nu: nu}
 	c.newProd(true, rapid.IntRange(1, o.MaxDepth).Draw(t, "depth"))
@@ -586,7 +615,7 @@ func Sample(t *rapid.T, g *Grammar, e *Expr, out *[]VTok, fuel *int) {
 		s := e.S
 		ty := e.T
 		if ty == "" {
-			ty = typeOfText(s)
+			ty = g.Prof().TypeOfText(s)
 		}
 		if g.IsCI(ty) && rapid.IntRange(0, 3).Draw(t, "flip") == 0 {
 			if s == strings.ToLower(s) {
@@ -597,7 +626,7 @@ func Sample(t *rapid.T, g *Grammar, e *Expr, out *[]VTok, fuel *int) {
 		}
 		*out = append(*out, VTok{Type: ty, Value: s})
 	case KRef:
-		c := vocabOf(e.T)
+		c := g.Prof().vocabOf(e.T)
 		if len(c) == 0 {
 			if e.T == "Comment" {
 				*out = append(*out, VTok{Type: "Comment", Value: "#c#"})
@@ -642,26 +671,8 @@ func Sample(t *rapid.T, g *Grammar, e *Expr, out *[]VTok, fuel *int) {
 			Sample(t, g, g.Prods[e.Prod].Expr, out, fuel)
 		}
 	case KNeg:
-		*out = append(*out, rapid.SampledFrom(Vocab).Draw(t, "negtok"))
+		*out = append(*out, rapid.SampledFrom(g.Prof().Vocab).Draw(t, "negtok"))
 	}
-}
-
-func typeOfText(s string) string {
-	if s == "" {
-		return "Punct"
-	}
-	c := s[0]
-	switch {
-	case c >= 'a' && c <= 'z' || c >= 'A' && c <= 'Z':
-		return "Ident"
-	case c >= '0' && c <= '9':
-		return "Int"
-	case c == ' ':
-		return "WS"
-	case c == '#':
-		return "Comment"
-	}
-	return "Punct"
 }
 
 // GenInput draws a token sequence: a random derivation of the root followed by 0-2 token-level
@@ -671,7 +682,7 @@ func GenInput(t *rapid.T, g *Grammar) []VTok {
 	if rapid.IntRange(0, 19).Draw(t, "soup") == 0 {
 		n := rapid.IntRange(0, 8).Draw(t, "soupn")
 		for i := 0; i < n; i++ {
-			toks = append(toks, rapid.SampledFrom(Vocab).Draw(t, "souptok"))
+			toks = append(toks, rapid.SampledFrom(g.Prof().Vocab).Draw(t, "souptok"))
 		}
 		return toks
 	}
@@ -695,12 +706,12 @@ func GenInput(t *rapid.T, g *Grammar) []VTok {
 			}
 		case 1:
 			j := rapid.IntRange(0, len(toks)).Draw(t, "ins")
-			v := rapid.SampledFrom(Vocab).Draw(t, "insv")
+			v := rapid.SampledFrom(g.Prof().Vocab).Draw(t, "insv")
 			toks = append(toks[:j:j], append([]VTok{v}, toks[j:]...)...)
 		case 2:
 			if len(toks) > 0 {
 				j := rapid.IntRange(0, len(toks)-1).Draw(t, "rep")
-				toks[j] = rapid.SampledFrom(Vocab).Draw(t, "repv")
+				toks[j] = rapid.SampledFrom(g.Prof().Vocab).Draw(t, "repv")
 			}
 		case 3:
 			if len(toks) > 0 {
@@ -719,19 +730,15 @@ func GenInput(t *rapid.T, g *Grammar) []VTok {
 // ---------------------------------------------------------------------------------------------
 // rendering token sequences to text with elided runs
 
-var wsSeps = []string{" ", "  ", "\n", "\t ", " \n "}
-var commentSeps = []string{"#c#", " #x y# ", "#a#\n", "#b##c#", " #z#"}
-
-func isWordTok(v VTok) bool { return v.Type == "Ident" || v.Type == "Int" }
-
 func drawSep(t *rapid.T, g *Grammar, label string) string {
 	n := rapid.IntRange(1, 2).Draw(t, label+"n")
 	var sb strings.Builder
 	for i := 0; i < n; i++ {
-		if g.IsElided("Comment") && rapid.IntRange(0, 2).Draw(t, label+"c?") == 0 {
-			sb.WriteString(rapid.SampledFrom(commentSeps).Draw(t, label+"c"))
+		p := g.Prof()
+		if (g.IsElided("Comment") || p.Name == "scanner") && rapid.IntRange(0, 2).Draw(t, label+"c?") == 0 {
+			sb.WriteString(rapid.SampledFrom(p.CommentSeps).Draw(t, label+"c"))
 		} else {
-			sb.WriteString(rapid.SampledFrom(wsSeps).Draw(t, label+"w"))
+			sb.WriteString(rapid.SampledFrom(p.WSSeps).Draw(t, label+"w"))
 		}
 	}
 	return sb.String()
@@ -747,7 +754,7 @@ func Render(t *rapid.T, g *Grammar, toks []VTok, label string) string {
 	}
 	for i, tk := range toks {
 		if i > 0 {
-			need := toks[i-1].Type == tk.Type && isWordTok(tk)
+			need := g.Prof().needSep(toks[i-1], tk)
 			if need || rapid.IntRange(0, 2).Draw(t, label+"sep?") == 0 {
 				sb.WriteString(drawSep(t, g, label+"sep"))
 			}
@@ -761,10 +768,10 @@ func Render(t *rapid.T, g *Grammar, toks []VTok, label string) string {
 }
 
 // RenderMinimal writes the tokens with single spaces only where needed.
-func RenderMinimal(toks []VTok) string {
+func RenderMinimal(g *Grammar, toks []VTok) string {
 	var sb strings.Builder
 	for i, tk := range toks {
-		if i > 0 && toks[i-1].Type == tk.Type && isWordTok(tk) {
+		if i > 0 && g.Prof().needSep(toks[i-1], tk) {
 			sb.WriteByte(' ')
 		}
 		sb.WriteString(tk.Value)
